@@ -1151,7 +1151,7 @@ def run_plain_tee(tee, items):
     return logs, out
 
 
-def run_plain(pipe, items, complete=True, share_ops=False, feedback=False, reapply=None):
+def run_plain(pipe, items, complete=True, share_ops=False, feedback=False, reapply=None, behind_store=False):
     """The plain (non multiplexed) code path of the same pipeline: items of one group
     as an ordinary observable.  Returns outputs with the number of source items pushed
     when each was emitted, and how the stream ended."""
@@ -1191,7 +1191,14 @@ def run_plain(pipe, items, complete=True, share_ops=False, feedback=False, reapp
                 src0.on_completed()
             except Exception:
                 pass
-        obs = src.pipe(*ops) if ops else src
+        feed = src
+        if behind_store:
+            # the plain pipeline is applied to the output of a store section (keyed
+            # aggregation first, plain processing after it): that output is a plain observable
+            import rx
+            import rxsci as rs
+            feed = src.pipe(rs.state.with_memory_store(pipeline=rx.pipe(rs.ops.map(lambda x: x))))
+        obs = feed.pipe(*ops) if ops else feed
         obs.subscribe(on_next=on_next, on_error=on_error, on_completed=on_completed)
         try:
             while pending:
